@@ -176,6 +176,9 @@ pub struct KnownFinding {
     /// substring the failure message of the witness must contain
     #[serde(default)]
     pub msg_contains: Option<String>,
+    /// "checked" / "unchecked": the finding (and its witness) only exists in that build profile
+    #[serde(default)]
+    pub profile: Option<String>,
     /// panic signature: a library panic whose location/message match is this finding, not a new one
     #[serde(default)]
     pub panic_file_contains: Option<String>,
@@ -191,7 +194,15 @@ pub struct KnownFinding {
 
 impl KnownFinding {
     pub fn is_open(&self) -> bool {
-        self.status == "finding"
+        self.status == "finding" && self.applies_to_this_build()
+    }
+    /// checked = overflow checks and debug assertions on (the normal profile of every check)
+    pub fn applies_to_this_build(&self) -> bool {
+        match self.profile.as_deref() {
+            Some("checked") => cfg!(debug_assertions),
+            Some("unchecked") => !cfg!(debug_assertions),
+            _ => true,
+        }
     }
     pub fn matches_panic(&self, p: &PanicInfo) -> bool {
         if !self.is_open() {
@@ -853,6 +864,7 @@ pub fn write_replay(verif_root: &str, prop: &str, f: &Failure, seed: u64, tier: 
 pub fn write_evidence(verif_root: &str, prop: &Property, tier: Tier, seed: u64, rep: &RunReport, violations: i64, extra: Value) {
     let dir = format!("{}/evidence", verif_root);
     let _ = std::fs::create_dir_all(&dir);
+    let file_stem = std::env::var("RQV_EVIDENCE_NAME").unwrap_or_else(|_| prop.id.to_string());
     let classes: BTreeMap<String, u64> = rep.stats.classes.iter().map(|(k, v)| (k.to_string(), *v)).collect();
     let parts: Vec<Value> = rep.per_part.iter().map(|(n, e, nt)| json!({"part": n, "evaluations": e, "distinct_nontrivial": nt})).collect();
     let mut samples = rep.stats.samples.clone();
@@ -891,5 +903,5 @@ pub fn write_evidence(verif_root: &str, prop: &Property, tier: Tier, seed: u64, 
         "wall_s": rep.wall_s,
         "violations": violations,
     });
-    std::fs::write(format!("{}/{}.json", dir, prop.id), serde_json::to_string_pretty(&ev).unwrap()).expect("write evidence");
+    std::fs::write(format!("{}/{}.json", dir, file_stem), serde_json::to_string_pretty(&ev).unwrap()).expect("write evidence");
 }
